@@ -228,7 +228,14 @@ void Interpret::interp(ASTNode& n) {
                     LetRecords letRecords;
                     // names registered by (! t :named n) inside the term must not survive a rejected assert
                     std::size_t const namesBefore = main_solver->getTermNamesCount();
-                    PTRef tr = parseTerm(asrt, letRecords);
+                    PTRef tr = PTRef_Undef;
+                    try {
+                        tr = parseTerm(asrt, letRecords);
+                    } catch (std::exception const &) {
+                        // e.g. a non-linear subterm: the assert is rejected (reported by the caller), its names must go as well
+                        main_solver->forgetTermNamesSince(namesBefore);
+                        throw;
+                    }
                     if (tr == PTRef_Undef) {
                         main_solver->forgetTermNamesSince(namesBefore);
                         notify_formatted(true, "assertion returns an unknown sort");
@@ -241,7 +248,7 @@ void Interpret::interp(ASTNode& n) {
                             notify_success();
                         } catch (ApiException const & e) {
                             main_solver->forgetTermNamesSince(namesBefore);
-                            notify_formatted(true, e.what());
+                            notify_formatted(true, "%s", e.what());
                         }
                     }
                 } else {
